@@ -9,7 +9,7 @@ pub fn run(ctx: &Ctx) -> (CheckMeta, Acc) {
         level: "exploration",
         rule: "incentive histories (see C11) with native and cw20 reward assets x native and cw20 creation fee x fee asset equal / different to the reward asset (4 fee variants x 2 LP kinds), opens with exact, fee-only, under- and over-payment, expansions with and without a new end epoch, claims over many epochs, closes by creator, factory owner and strangers, closes of expanded flows. F1 reward balance >= sum(funded - claimed); F2 on open/expand: increase of funded == tokens the contract received, fee == collector delta; F3 claimed <= funded; F4 close refunds exactly funded - claimed to the creator and removes the flow, nothing else moves; F5 strangers rejected.".to_string(),
         assumptions: vec!["funded amount of a flow = last asset_history entry, else flow_asset.amount".into()],
-        obligations: vec!["check.F1".into(), "check.F2".into(), "check.F3".into(), "check.F4".into(), "check.F5".into(), "open_flow.ok.reward==fee-asset".into(), "expand_flow.ok".into(), "close_flow.ok.expanded".into(), "open_flow.rejected".into()],
+        obligations: vec!["check.F1".into(), "check.F2".into(), "check.F3".into(), "check.F4".into(), "check.F5".into(), "open_flow.ok.reward==fee-asset".into(), "expand_flow.ok".into(), "expand_flow.ok.flow-reset".into(), "close_flow.ok.expanded".into(), "open_flow.rejected".into()],
     };
     (meta, total)
 }
